@@ -1778,7 +1778,9 @@ public:
     crab::CrabStats::count(domain_name() + ".count.forget");
     crab::ScopedCrabStats __st__(domain_name() + ".forget");
 
-    if (is_bottom() || is_top()) {
+    // Do not return if is_top(): the product can be top while the
+    // boolean-to-constraint maps still have facts about the variables.
+    if (is_bottom()) {
       return;
     }
 
@@ -1820,7 +1822,7 @@ public:
     crab::CrabStats::count(domain_name() + ".count.project");
     crab::ScopedCrabStats __st__(domain_name() + ".project");
 
-    if (is_bottom() || is_top()) {
+    if (is_bottom()) {
       return;
     }
 
@@ -1844,7 +1846,7 @@ public:
 
   void rename(const variable_vector_t &from,
               const variable_vector_t &to) override {
-    if (is_bottom() || is_top()) {
+    if (is_bottom()) {
       return;
     }
     
